@@ -282,11 +282,11 @@ def _lock_rules(chk, prog, S):
                     chk.ok(rule3, "%s: %s with nothing held" % (fn.name, n.text()[:40]))
     if nb < 4:
         raise AnalysisBroken("only %d cross-thread hand-off sites found in the channel code" % nb)
-    _choice_rule(chk, prog, S, LA)
+    _choice_rule(chk, prog, S, LA, results)
     return LA, results
 
 
-def _choice_rule(chk, prog, S, LA):
+def _choice_rule(chk, prog, S, LA, results=None):
     """cfun_channel_choice holds a growing set of locks (clauses 0..i) in its first loop.  Dedicated rule:
     state (cur, prevrel): cur = mutex of the current clause held; prevrel = chan_unlock_args(argv, i)
     has been called (or, in the second loop, the *_with_lock helper is draining the earlier clauses)."""
@@ -387,6 +387,19 @@ def _choice_rule(chk, prog, S, LA):
                                       "%s raises with clause mutexes still held" % n.text()[:50])
                     else:
                         chk.ok(rule, "%s: %s with nothing held" % (fn.name, n.text()[:40]))
+                elif (n.callee or "").endswith("_with_lock") and results is not None and n.callee in results:
+                    # the helper gives up the current clause's mutex before it raises (C08-LOCK), but ev/select also holds
+                    # the mutexes of the other clauses: a helper that raises by itself leaves those locked for ever
+                    raises = results[n.callee]["nr"]
+                    others = [s for s in st if s[1]]
+                    chk.instance(rule2)
+                    if raises and others:
+                        chk.violation(rule2, "ev.c", fn.name, "raising-helper:" + n.callee, n.loc,
+                                      "%s can raise by itself (%s at %s) and is called here while the mutexes of other select clauses "
+                                      "are held: those channels stay locked, every thread that touches them blocks, and the program "
+                                      "never exits" % (n.callee, raises[0][0].text()[:50], raises[0][0].loc))
+                    else:
+                        chk.ok(rule2, "cfun_channel_choice: %s reports failure as a status, it never raises with the other clauses locked" % n.callee)
                 elif held and not (n.callee or "").endswith("_with_lock") and S.call_in(fn, n, S.may_panic):
                     chk.instance(rule2)
                     chk.violation(rule2, "ev.c", fn.name, n.callee or "pointer", n.loc,
